@@ -318,6 +318,14 @@ def gen_error_text(rng, nbytes, template=None):
     return name, before + rng.choice(["", " ", "\t", "\n"]) + body + rng.choice(["", "\n", "\r\n"]) + after
 
 
+def settle(req, r, timeout=180.0):
+    """a request answered `hang` under the batch timeout is re-run alone with a long timeout before it is believed (a loaded
+    machine must not turn a slow answer into a finding)"""
+    if isinstance(r, dict) and r.get("hang"):
+        return run_harness([req], per_req_timeout=timeout, jobs=1)[0]
+    return r
+
+
 def run(chk):
     rng = chk.rng
     quick = chk.tier == "quick"
@@ -469,6 +477,7 @@ def run(chk):
     resps = run_harness([{"op": "lex", "f": "compile", "src": t} for _, t in texts], per_req_timeout=10.0)
     for (kind, t), r in zip(texts, resps):
         chk.evaluations += 1
+        r = settle({"op": "lex", "f": "compile", "src": t}, r, 60.0)
         replay = {"harness": {"op": "lex", "f": "compile", "src": t}, "got": r}
         outcome = "panic" if "panic" in r else "abort" if "abort" in r else "hang" if "hang" in r else ("accept" if r.get("compile") == "ok" else "reject")
         chk.count(f"compile:{kind}:{outcome}")
@@ -496,12 +505,13 @@ def run(chk):
         for tp in tps:
             rtexts.append(gen_error_text(rng, nbytes, tp))
     for tp in ERROR_TEMPLATES:          # every class at a few widths in every run
-        for nbytes in (0, 7, 119, 121, 255, 257):
+        for nbytes in (119, 121, 257):
             rtexts.append(gen_error_text(rng, nbytes, tp))
     rtexts.append(("NoOverload", 'let banner = "' + "\u98a8\u6797\u706b\u5c71: " + "\u75be\u304d\u3053\u3068\u98a8\u306e\u5982\u304f\u3001" * 6 + '" + 1;'))
-    rresps = run_harness([{"op": "lex", "f": "render", "src": t} for _, t in rtexts], per_req_timeout=10.0)
+    rresps = run_harness([{"op": "lex", "f": "render", "src": t} for _, t in rtexts], per_req_timeout=30.0)
     for (name, t), r in zip(rtexts, rresps):
         chk.evaluations += 1
+        r = settle({"op": "lex", "f": "render", "src": t}, r)
         replay = {"harness": {"op": "lex", "f": "render", "src": t}, "got": r}
         if "first" not in r:
             kind = "panic" if "panic" in r else "abort" if "abort" in r else "hang"
@@ -546,6 +556,7 @@ def run(chk):
     rep_reqs += [{"op": "lex", "f": "repeat", "src": q["src"], "n": 8 if quick else 16} for q in rng.sample(dets[:-len(reps)], min(len(dets) - len(reps), 40 if quick else 600))]
     for q, r in zip(rep_reqs, run_harness(rep_reqs, per_req_timeout=60.0)):
         chk.evaluations += 1
+        r = settle(q, r, 600.0)
         replay = {"harness": q, "got": r}
         if "outcomes" not in r:
             kind = "panic" if "panic" in r else "abort" if "abort" in r else "hang"
